@@ -137,7 +137,7 @@ def replay(payload):
     ast = r["model"]; d = {k: tuple(v) for k, v in r["interpretation"].items()}
     class R: evaluations = 0
     bad = None
-    for sd in range(20):          # the reused-dictionary step picks a leaf at random
+    for sd in range(80):          # the reused-dictionary step picks a leaf, forms() a value form and a mapping type at random
         bad = bad or oracle_case(R, ast, d, r["env"], random.Random(sd))
     print("model", build(ast), "interpretation", d, "->", "FAILS: " + bad["problem"] if bad else "holds")
     return 1 if bad else 0
